@@ -3,7 +3,7 @@ CANON = True
 
 import ast
 
-from .. import compq, pyq
+from .. import boolfn, pm, compq, pyq
 from ..pysrc import dotted, norm, flat
 
 R = compq.RM
@@ -28,10 +28,20 @@ def check(ctx, src):
         ctx.check(all(r.lineno > e.lineno for r in rets) and len(rets) >= 1, "STAGE-EVAL-ONCE", f"{R}|{FN}|eval before return", "a return precedes the evaluation", R, f.lineno, detail="eval dominates all returns")
     ne = pyq.contains(f, lambda n: isinstance(n, ast.Assign) and norm(n) == "new_expr = Expression([Symbol('do').replace(expr[0])]).replace(expr)")
     ctx.check(ne is not None, "STAGE-EVAL-ONCE", f"{R}|{FN}|do wrapper", "the body must be wrapped in `do`", R, f.lineno, detail="(do …)")
-    rets = sorted((r for r in pyq.walk_no_nested(f) if isinstance(r, ast.Return)), key=lambda r: r.lineno)
-    t = flat(rets[-1].value) if rets else ""
-    ctx.check(len(rets) == 1 and t == "compiler.compile(as_model(value).replace(expr)) if root == 'do-mac' else compiler._compile_branch(body) if root == 'eval-and-compile' else Result()", "STAGE-ROOT", f"{R}|{FN}|per-root result",
-              f"the result expression is `{t}`", R, f.lineno, witness="(do-mac 0) compiles to None instead of 0 / eval-when-compile emits run-time code / eval-and-compile emits nothing", detail="do-mac: value; eval-and-compile: body; else: empty")
+    # what each root contributes to the output, decided on the truth table of the root tests
+    AT = boolfn.Atoms(M="root == 'do-mac'", E="root == 'eval-and-compile'")
+    feas = lambda e: not (e["M"] and e["E"])
+    def ret_sites(pred):
+        return [r for r in pyq.walk_no_nested(f) if isinstance(r, ast.Return) and r.value is not None and pred(r.value)]
+    s_mac = ret_sites(lambda v: isinstance(v, ast.Call) and norm(v.func) == "compiler.compile" and pm.find(v, "as_model(value)") is not None)
+    s_eac = ret_sites(lambda v: isinstance(v, ast.Call) and norm(v.func) == "compiler._compile_branch" and len(v.args) == 1 and isinstance(v.args[0], ast.Name) and v.args[0].id == "body")
+    s_ewc = ret_sites(lambda v: isinstance(v, ast.Call) and dotted(v.func) == "Result" and not v.args and not v.keywords)
+    all_rets = [r for r in pyq.walk_no_nested(f) if isinstance(r, ast.Return)]
+    res = [boolfn.equivalent(s_mac, f, AT, lambda e: e["M"], feasible=feas), boolfn.equivalent(s_eac, f, AT, lambda e: e["E"], feasible=feas),
+           boolfn.equivalent(s_ewc, f, AT, lambda e: not e["M"] and not e["E"], feasible=feas)]
+    verdict = None if any(r[0] is None for r in res) or len(all_rets) != len(s_mac) + len(s_eac) + len(s_ewc) else all(r[0] for r in res)
+    ctx.decide("STAGE-ROOT", f"{R}|{FN}|per-root result", verdict, f"do-mac must compile the promoted compile-time value, eval-and-compile the body (once), eval-when-compile nothing (counterexamples: {[r[1] for r in res if r[1]]})",
+               R, f.lineno, witness="(do-mac 0) compiles to None instead of 0 / eval-when-compile emits run-time code / eval-and-compile emits nothing", detail="do-mac: value; eval-and-compile: body; else: empty")
     reg = comp.macro("do-mac")
     ctx.check(reg is not None and sorted(reg["names"]) == ["do-mac", "eval-and-compile", "eval-when-compile"] and norm(reg["pattern"]) == "[many(FORM)]", "STAGE-ROOT", f"{R}|{FN}|registration", "the three staging forms are registered with [many(FORM)]", R, f.lineno, detail="3 names")
     tr = next((n for n in pyq.walk_no_nested(f) if isinstance(n, ast.Try)), None)
@@ -39,7 +49,9 @@ def check(ctx, src):
     ok = [n for n, _ in hs] == ["HyInternalError", "Exception"] and isinstance(hs[0][1].body[-1], ast.Raise) and hs[0][1].body[-1].exc is None and "HyEvalError(str(e), compiler.filename, body, compiler.source)" in norm(hs[1][1].body[-1])
     ctx.check(ok, "STAGE-ERRORS", f"{R}|{FN}|handlers", "HyInternalError must be re-raised, everything else wrapped in HyEvalError", R, f.lineno, detail="HyInternalError: raise; Exception: HyEvalError")
     he = comp.cp.func("HyASTCompiler.eval")
-    ctx.check(he is not None and "hy_eval(model, locals=self.module.__dict__, module=self.module" in norm(he.body[-1]).replace("\n", "") and "import_stdlib=False" in flat(he), "STAGE-EVAL-ONCE", f"{compq.CP}|HyASTCompiler.eval", "compile-time evaluation must run in the module being compiled", compq.CP, 0, detail="hy_eval in self.module")
+    hcall = pyq.contains(he, lambda n: isinstance(n, ast.Call) and dotted(n.func) == "hy_eval") if he is not None else None
+    kw = {k.arg: norm(k.value) for k in hcall.keywords} if hcall is not None else {}
+    ctx.decide("STAGE-EVAL-ONCE", f"{compq.CP}|HyASTCompiler.eval", None if hcall is None else (kw.get("locals") == "self.module.__dict__" and kw.get("module") == "self.module" and kw.get("import_stdlib") == "False"), "compile-time evaluation must run in the module being compiled", compq.CP, 0, detail="hy_eval in self.module")
     # --- compile once: with
     w = comp.rm.func("compile_with_expression")
     ctx.require(w is not None, "compile_with_expression not found")
